@@ -2,23 +2,45 @@
 C15 — the loaded network is exactly the one described by the edge/vertex files.
 
 Model: `Compass.Model.Graph` (the `EdgeLoader` row callback folded over the decoded rows, the `Graph`
-accessors, the order of evaluation and error kinds of `graph_from_files`).  File decoding (csv, gzip,
-line counting) is not modelled; it is covered by the differential run only (harness/src/c15.rs), which
-also ties this model to the real `Graph::from_files` on every run.
+accessors, the order of evaluation and error kinds of `graph_from_files`, the lookups of the per-edge
+table consumers) and `Compass.Model.GraphIO` (the `Vertex` decoder, `DefaultGraphBuilder::build`).
 
 Domain of the property ("the listed network"): the documented input format, in which the id of an
 edge / vertex is the number of its row and every endpoint is a listed vertex:
-`RowIds es`, `VertexRowIds vs`, `EndpointsBelow es vs.length`.  Since /repo 0316a94, c6cac08 and
-c9969cf the loader checks all three (and that every endpoint is below the declared / scanned vertex
-count), so the top-level statement is proved for EVERY input without hypothesis
-(`loaded_network_is_listed`).  What the loader builds from arbitrary rows is stated by the
-`…_general` theorems.
+`RowIds es`, `VertexRowIds vs`, `EndpointsBelow es vs.length`.  The loader checks all three (and that
+every endpoint is below the declared / scanned vertex count), so the top-level statement is proved for
+EVERY input of the model without hypothesis (`loaded_network_is_listed`).  What the loader builds from
+arbitrary rows is stated by the `…_general` theorems.
 
 Adjacency order: `out_edges v` is the rows leaving `v` *in file order* (the container's `keys()` yields
 insertion order in each of its representations); nothing bounds a vertex's degree.
+
+MODELLED RATHER THAN VERIFIED (nothing below is a theorem about these; the differential run of
+harness/src/c15.rs is the only evidence, on the inputs it generates):
+* bytes to records: csv tokenising (quoting, BOM, CR / LF, blank lines, header names are not trimmed),
+  gzip decoding (one or several members, streams cut short), line counting, text-to-number parsing.
+  A file reaches the model as `CsvFile` = (can it be read to its end, text lines, is there a header
+  row, the records and which of them do not decode).  In particular "gzip or plain" and "a gzip file
+  cut short is a load error" are NOT Lean statements: `present = false` / `hasHeader = false` are
+  flags the harness sets from the bytes it wrote (corpus W10–W14), and `unreadable_file_never_loads`
+  / `empty_file_never_loads` say no more than what `readCsv` / `scanCount` do with those flags.
+* per-edge tables: that the real readers and consumers address a table by LINE NUMBER = edge id is how
+  the model defines them (`tableRow`, `tableGet`, mirrored from `table.get(edge_id.as_usize())`); the
+  `lookup` and `table` case streams compare that with the real `get_speed`, `get_headings`,
+  `get_grade` and `RoadClassFrontierModel::valid_frontier`.
+* the adjacency container is the abstract insertion-ordered association list (equal to C11's
+  specification: `adjacency_entry_is_container_spec`); that the five-representation Rust container
+  refines it is C11's theorem, the composition is not formalised beyond that equality.
+* allocation: a vertex count whose adjacency tables exceed the address space is a `DatasetError`
+  (`graphFromFilesAlloc`, case stream `loadcap`); a smaller count that exceeds the memory the process
+  can get is not modelled (the process may be killed).  The `InternalError` of the progress bar
+  builder is not an outcome of the model: kdam only fails on a `bar_format`, and none is given.
+* distances and coordinates are an abstract `α`: NaN, infinities, negative lengths are loaded as
+  listed and nothing here says they are sensible.
 -/
 import Compass.Proofs.Graph
 import Compass.Proofs.GraphIO
+import Compass.Proofs.Container
 
 namespace Compass
 namespace C15
@@ -30,13 +52,16 @@ variable {α : Type}
 
 /-! ### sizes, edges and vertices by position (true of every input) -/
 
+/-- (holds by construction of `buildGraph`: `edges` is the row list) -/
 theorem n_edges_eq (es : List (Edge α)) (vs : List (Vertex α)) (nV : Nat) :
     (buildGraph es vs nV).nEdges = es.length := rfl
 
+/-- (holds by construction of `buildGraph`: `vertices` is the row list) -/
 theorem n_vertices_eq (es : List (Edge α)) (vs : List (Vertex α)) (nV : Nat) :
     (buildGraph es vs nV).nVertices = vs.length := rfl
 
-/-- `get_edge i` is row `i` of the edge file, whatever id that row carries -/
+/-- `get_edge i` is row `i` of the edge file, whatever id that row carries (an unfolding of the model's
+`getEdge` on `buildGraph`; it gains content only together with `RowIds`: `get_edge_by_id`) -/
 theorem get_edge_general (es : List (Edge α)) (vs : List (Vertex α)) (nV i : Nat) :
     (buildGraph es vs nV).getEdge i =
       match es[i]? with
@@ -45,7 +70,8 @@ theorem get_edge_general (es : List (Edge α)) (vs : List (Vertex α)) (nV i : N
   simp only [Graph.getEdge, buildGraph]
   cases es[i]? <;> rfl
 
-/-- `get_vertex i` is row `i` of the vertex file, whatever id that row carries -/
+/-- `get_vertex i` is row `i` of the vertex file, whatever id that row carries (an unfolding of the
+model's `getVertex` on `buildGraph`) -/
 theorem get_vertex_general (es : List (Edge α)) (vs : List (Vertex α)) (nV i : Nat) :
     (buildGraph es vs nV).getVertex i =
       match vs[i]? with
@@ -273,14 +299,6 @@ theorem incident_triplet_ids_eq (es : List (Edge α)) (vs : List (Vertex α)) (n
   · simp only [Graph.incidentTripletIds, Graph.incidentEdges, in_edges_eq es vs nV h hb]
     exact tripletIdsGo_listed es vs nV h v .reverse _ (fun e he => (List.mem_filter.1 he).1)
 
-/-- per-edge tables (speeds, grades, headings, classes) are aligned with edge ids by row: the entry
-looked up for edge `e` is row `e` of the table, and a table with one row per edge covers every edge -/
-theorem table_aligned {β : Type} (table : List β) (es : List (Edge α)) (h : RowIds es)
-    (hl : table.length = es.length) (e : Edge α) (he : e ∈ es) :
-    ∃ hi : e.edgeId < table.length, tableRow table e.edgeId = some table[e.edgeId] := by
-  obtain ⟨hi, _⟩ := (h.mem_iff e).1 he
-  exact ⟨hl ▸ hi, by simp [tableRow, List.getElem?_eq_getElem (hl ▸ hi)]⟩
-
 /-! ### the file layer: counts explicit or scanned, validation, error kinds -/
 
 theorem decodeRows_ok {ρ : Type} (l : List ρ) : decodeRows (l.map Row.ok) = .ok l := by
@@ -463,46 +481,51 @@ end
 
 /-! ### the whole property -/
 
-/-- "the graph exposes exactly the listed topology", by id (the harness's oracle states the same):
-sizes, every listed edge and vertex retrievable by its id, adjacency in both directions … -/
+/-- "the graph exposes exactly the listed topology", by id (the harness's oracle states the same as
+multisets): sizes, every listed edge and vertex retrievable by its id, and the out- / in-edges of every
+vertex EXACTLY the ids of the listed edges that leave / enter it, once each, in file order -/
 structure DescribesTopology {α : Type} (g : Graph α) (es : List (Edge α)) (vs : List (Vertex α)) : Prop where
   nEdges : g.nEdges = es.length
   nVertices : g.nVertices = vs.length
   edge : ∀ e ∈ es, g.getEdge e.edgeId = .ok e
   vertex : ∀ v ∈ vs, g.getVertex v.vertexId = .ok v
-  out : ∀ v x, x ∈ g.outEdges v ↔ ∃ e ∈ es, e.edgeId = x ∧ e.src = v
-  inc : ∀ v x, x ∈ g.inEdges v ↔ ∃ e ∈ es, e.edgeId = x ∧ e.dst = v
+  out : ∀ v, g.outEdges v = (es.filter (fun e => e.src = v)).map Edge.edgeId
+  inc : ∀ v, g.inEdges v = (es.filter (fun e => e.dst = v)).map Edge.edgeId
 
 /-- … and the triplet of every listed edge: both endpoints are listed vertices -/
 structure Describes {α : Type} (g : Graph α) (es : List (Edge α)) (vs : List (Vertex α)) : Prop
     extends DescribesTopology g es vs where
   triplet : ∀ e ∈ es, ∃ s d, g.edgeTriplet e.edgeId = .ok (s, e, d) ∧ s.vertexId = e.src ∧ d.vertexId = e.dst
 
+/-- membership form of the adjacency clauses -/
+theorem DescribesTopology.mem_out_in {α : Type} {g : Graph α} {es : List (Edge α)} {vs : List (Vertex α)}
+    (h : DescribesTopology g es vs) (v x : Nat) :
+    (x ∈ g.outEdges v ↔ ∃ e ∈ es, e.edgeId = x ∧ e.src = v) ∧
+    (x ∈ g.inEdges v ↔ ∃ e ∈ es, e.edgeId = x ∧ e.dst = v) := by
+  rw [h.out, h.inc]
+  simp only [List.mem_map, List.mem_filter, decide_eq_true_eq]
+  constructor
+  · constructor
+    · rintro ⟨e, ⟨he, hs⟩, rfl⟩
+      exact ⟨e, he, rfl, hs⟩
+    · rintro ⟨e, he, rfl, hs⟩
+      exact ⟨e, ⟨he, hs⟩, rfl⟩
+  · constructor
+    · rintro ⟨e, ⟨he, hs⟩, rfl⟩
+      exact ⟨e, he, rfl, hs⟩
+    · rintro ⟨e, he, rfl, hs⟩
+      exact ⟨e, ⟨he, hs⟩, rfl⟩
+
 theorem describesTopology_buildGraph {α : Type} (es : List (Edge α)) (vs : List (Vertex α)) (n : Nat)
     (h : RowIds es) (hv : VertexRowIds vs) (hb : EndpointsBelow es n) :
     DescribesTopology (buildGraph es vs n) es vs := by
-  refine ⟨rfl, rfl, fun e he => get_edge_by_id es vs _ h e he, ?_, ?_, ?_⟩
-  · intro v hm
-    obtain ⟨i, hi, rfl⟩ := List.mem_iff_getElem.1 hm
-    have := get_vertex_by_id es vs n hv i hi
-    rw [this.2]
-    exact this.1
-  · intro v x
-    rw [out_edges_eq es vs _ h hb]
-    simp only [List.mem_map, List.mem_filter, decide_eq_true_eq]
-    constructor
-    · rintro ⟨e, ⟨he, hs⟩, rfl⟩
-      exact ⟨e, he, rfl, hs⟩
-    · rintro ⟨e, he, rfl, hs⟩
-      exact ⟨e, ⟨he, hs⟩, rfl⟩
-  · intro v x
-    rw [in_edges_eq es vs _ h hb]
-    simp only [List.mem_map, List.mem_filter, decide_eq_true_eq]
-    constructor
-    · rintro ⟨e, ⟨he, hs⟩, rfl⟩
-      exact ⟨e, he, rfl, hs⟩
-    · rintro ⟨e, he, rfl, hs⟩
-      exact ⟨e, ⟨he, hs⟩, rfl⟩
+  refine ⟨rfl, rfl, fun e he => get_edge_by_id es vs _ h e he, ?_, fun v => out_edges_eq es vs _ h hb v,
+    fun v => in_edges_eq es vs _ h hb v⟩
+  intro v hm
+  obtain ⟨i, hi, rfl⟩ := List.mem_iff_getElem.1 hm
+  have := get_vertex_by_id es vs n hv i hi
+  rw [this.2]
+  exact this.1
 
 theorem describes_buildGraph {α : Type} (es : List (Edge α)) (vs : List (Vertex α)) (n : Nat)
     (h : RowIds es) (hv : VertexRowIds vs) (hb : EndpointsBelow es n) (hb' : EndpointsBelow es vs.length) :
@@ -606,10 +629,11 @@ theorem endpoint_beyond_vertex_rows_rejected_witness :
 section
 variable {α : Type}
 
-/-- a file that cannot be opened, or cannot be read to its end — a gzip stream cut short anywhere from
-its third byte on — never loads, whichever of the two files it is and however the counts are given:
-a load error, never a shorter network.  (Before /repo 81bf7f8 and 5e9f339 a gzip file cut short in its
-header, or before its first block decoded, was loaded as a list without rows.) -/
+/-- a file flagged as not readable to its end (`present = false`) never loads, whichever of the two
+files it is and however the counts are given.  This is one unfolding away from `readCsv` / `scanCount`
+(which fail on that flag) plus the order of evaluation; WHICH byte streams get that flag — a missing
+file, a gzip stream cut short — is decided by `fs_utils` / `read_utils` and evidenced only by the
+differential run (corpus W10–W12, kind `gzip-truncated`), not by this theorem. -/
 theorem unreadable_file_never_loads (ef : CsvFile (Edge α)) (vf : CsvFile (Vertex α)) (nE nV : Option Nat)
     (h : ef.present = false ∨ vf.present = false) (g : Graph α) : graphFromFiles ef vf nE nV ≠ .ok g := by
   intro hg
@@ -618,8 +642,9 @@ theorem unreadable_file_never_loads (ef : CsvFile (Edge α)) (vf : CsvFile (Vert
   · rw [h] at pe; exact absurd pe (by simp)
   · rw [h] at pv; exact absurd pv (by simp)
 
-/-- a file without any content never loads either, also with explicit counts (before /repo ff5c317 it
-was an empty list then) -/
+/-- likewise for a file flagged as having no header row (`hasHeader = false`, set by the harness for a
+file without any content): it never loads, also with explicit counts.  Definitional over the flag in the
+same sense (corpus W14). -/
 theorem empty_file_never_loads (ef : CsvFile (Edge α)) (vf : CsvFile (Vertex α)) (nE nV : Option Nat)
     (h : ef.hasHeader = false ∨ vf.hasHeader = false) (g : Graph α) : graphFromFiles ef vf nE nV ≠ .ok g := by
   intro hg
@@ -655,12 +680,14 @@ theorem empty_edge_file_errors (rows : List (Row (Edge α))) (vf : CsvFile (Vert
 
 /-! ### every accessor, on any `Graph` value (nothing is assumed about its four fields) -/
 
+/-- (restates the model's `getEdge`; used below) -/
 theorem get_edge_any (g : Graph α) (e : Nat) :
     g.getEdge e = match g.edges[e]? with
       | some x => .ok x
       | none => .error (.edgeNotFound e) := by
   unfold Graph.getEdge; cases g.edges[e]? <;> rfl
 
+/-- (restates the model's `getVertex`; used below) -/
 theorem get_vertex_any (g : Graph α) (v : Nat) :
     g.getVertex v = match g.vertices[v]? with
       | some x => .ok x
@@ -676,7 +703,8 @@ theorem incident_edges_beyond_table (g : Graph α) (v : Nat) :
   · simp [Graph.inEdges, Graph.incidentEdges, List.getElem?_eq_none h]
 
 /-- `edge_triplet`: the edge, then its source vertex, then its destination vertex; the first one that
-is missing is the error -/
+is missing is the error (the model's definition with its matches flattened — its content is that the
+differential run ties THIS order to the code; `edge_triplet_ok_iff` is the consequence) -/
 theorem edge_triplet_any (g : Graph α) (e : Nat) :
     g.edgeTriplet e = match g.edges[e]? with
       | none => .error (.edgeNotFound e)
@@ -718,7 +746,8 @@ theorem edge_triplet_ok_iff (g : Graph α) (e : Nat) :
   · rintro ⟨h, hs, hd⟩
     simp [List.getElem?_eq_getElem h, List.getElem?_eq_getElem hs, List.getElem?_eq_getElem hd]
 
-/-- `src_vertex_id`, `dst_vertex_id`, `incident_vertex`: the fields of the edge at that position -/
+/-- `src_vertex_id`, `dst_vertex_id`, `incident_vertex`: the fields of the edge at that position (an
+unfolding of the model's definitions) -/
 theorem endpoints_any (g : Graph α) (e : Nat) :
     g.srcVertexId e = (match g.edges[e]? with | some x => .ok x.src | none => .error (.edgeNotFound e)) ∧
     g.dstVertexId e = (match g.edges[e]? with | some x => .ok x.dst | none => .error (.edgeNotFound e)) ∧
@@ -1049,28 +1078,48 @@ theorem builder_is_load (params : Json) (ef : CsvFile (Edge α)) (vf : CsvFile (
   simp only [graphBuilderBuild, he, hv, h3, h4, h5]
   cases graphFromFiles ef vf nE nV <;> rfl
 
-theorem builder_ill_typed_count (params : Json) (ef : CsvFile (Edge α)) (vf : CsvFile (Vertex α)) (pe pv : String)
+/-- an ill-typed `n_edges`, `n_vertices` or `verbose` (present but not an unsigned integer / not a
+boolean) is a deserialization error — which does NOT name the key (`SerdeDeserializationError` carries
+only serde_json's text); only the two path keys are named by their errors -/
+theorem builder_ill_typed_count_or_flag (params : Json) (ef : CsvFile (Edge α)) (vf : CsvFile (Vertex α)) (pe pv : String)
     (he : getConfigPath params "edge_list_input_file" "graph" true = .ok pe)
-    (hv : getConfigPath params "vertex_list_input_file" "graph" true = .ok pv)
-    (v : Json) (hg : params.get? "n_edges" = some v) (hu : v.asU64? = none) :
-    graphBuilderBuild params true true ef vf = .error .serde := by
-  simp [graphBuilderBuild, he, hv, getConfigOptUsize, hg, hu]
+    (hv : getConfigPath params "vertex_list_input_file" "graph" true = .ok pv) :
+    (∀ v, params.get? "n_edges" = some v → v.asU64? = none →
+      graphBuilderBuild params true true ef vf = .error .serde) ∧
+    (∀ nE v, getConfigOptUsize params "n_edges" = .ok nE → params.get? "n_vertices" = some v → v.asU64? = none →
+      graphBuilderBuild params true true ef vf = .error .serde) ∧
+    (∀ nE nV v, getConfigOptUsize params "n_edges" = .ok nE → getConfigOptUsize params "n_vertices" = .ok nV →
+      params.get? "verbose" = some v → v.asBool? = none →
+      graphBuilderBuild params true true ef vf = .error .serde) := by
+  refine ⟨fun v hg hu => ?_, fun nE v h3 hg hu => ?_, fun nE nV v h3 h4 hg hu => ?_⟩
+  · simp [graphBuilderBuild, he, hv, getConfigOptUsize, hg, hu]
+  · simp only [graphBuilderBuild, he, hv, h3]
+    simp [getConfigOptUsize, hg, hu]
+  · simp only [graphBuilderBuild, he, hv, h3, h4]
+    simp [getConfigOptBool, hg, hu]
 
 end
 
-/-! ### per-edge tables through `read_raw_file` / `from_csv` -/
+/-! ### per-edge tables: readers and consumers
 
-/-- a table whose lines all decode is loaded whole and in order — row `e` is line `e` — and the row
-callback ran once per row; one line that does not decode, or a file that cannot be read to its end,
-fails the whole table (never a shorter or shifted one) -/
+The model DEFINES a table as the list of its decoded lines and a lookup as `table[edge id]?`
+(`tableRow`, `tableGet`), mirroring `read_raw_file` / `from_csv` and `table.get(edge_id.as_usize())`;
+that the real readers and the real `get_speed` / `get_headings` / `get_grade` / road-class check behave
+so is evidenced by the `table` and `lookup` case streams, not proved.  What is proved over that model:
+a table loads whole and in line order or not at all; the consumers' answer for the edge listed in row
+`k` of the edge file is line `k` of the table file; and nothing compares the two lengths. -/
+
+/-- a table whose lines all decode is loaded whole and in order, and the row callback ran once per
+row -/
 theorem read_table_ok {ρ : Type} (l : List ρ) :
-    readTable true (l.map Row.ok) = .ok l ∧ callbackCount (l.map Row.ok) = l.length ∧
-    ∀ e, tableRow l e = l[e]? := by
-  refine ⟨by simp [readTable, decodeRows_ok], ?_, fun e => rfl⟩
+    readTable true (l.map Row.ok) = .ok l ∧ callbackCount (l.map Row.ok) = l.length := by
+  refine ⟨by simp [readTable, decodeRows_ok], ?_⟩
   induction l with
   | nil => rfl
   | cons x xs ih => simp [callbackCount, ih]
 
+/-- one line that does not decode, or a file that cannot be read to its end, fails the whole table
+(never a shorter or shifted one) -/
 theorem read_table_errors {ρ : Type} (a : List ρ) (b : List (Row ρ)) (rows : List (Row ρ)) :
     readTable true (a.map Row.ok ++ Row.bad :: b) = .error .io ∧
     callbackCount (a.map Row.ok ++ Row.bad :: b) = a.length ∧
@@ -1080,10 +1129,215 @@ theorem read_table_errors {ρ : Type} (a : List ρ) (b : List (Row ρ)) (rows : 
   | nil => rfl
   | cons x xs ih => simp [callbackCount, ih]
 
+/-- every successful read: entry `k` of the table is the payload of LINE `k` of the file, for every
+`k` (no line is dropped, none is shifted), and there are as many entries as lines -/
+theorem read_table_entry_is_file_line {ρ : Type} (rows : List (Row ρ)) (t : List ρ)
+    (h : readTable true rows = .ok t) :
+    t.length = rows.length ∧ ∀ k, tableRow t k = (rows[k]?).bind Row.payload? := by
+  have hd : decodeRows rows = .ok t := by
+    unfold readTable at h
+    cases hx : decodeRows rows with
+    | error e => simp [hx] at h
+    | ok l => simpa [hx] using h
+  have hr := decodeRows_eq_ok rows t hd
+  subst hr
+  refine ⟨by simp, fun k => ?_⟩
+  simp only [tableRow, List.getElem?_map]
+  cases t[k]? <;> rfl
+
+/-- the consumers' lookup succeeds exactly inside the table, and its error names the edge id -/
+theorem table_get_ok_iff {β : Type} (t : List β) (e : Nat) :
+    ((∃ x, tableGet t e = .ok x) ↔ e < t.length) ∧ (t.length ≤ e → tableGet t e = .error (.missing e)) := by
+  unfold tableGet tableRow
+  constructor
+  · constructor
+    · rintro ⟨x, hx⟩
+      cases hk : t[e]? with
+      | none => simp [hk] at hx
+      | some y => exact (List.getElem?_eq_some_iff.1 hk).1
+    · intro h
+      exact ⟨t[e], by simp [List.getElem?_eq_getElem h]⟩
+  · intro h
+    simp [List.getElem?_eq_none h]
+
+/-- S8, composed with the loader: for every network that loads and every table file that reads, IF the
+table file has one line per row of the edge file (`rows.length = g.nEdges` — a fact about the two files
+that the code never checks), then for every edge id `k` of the network the edge retrieved by `k` is the
+one listed in row `k` of the edge file and the consumers' lookup for it yields the payload of line `k`
+of the table file -/
+theorem loaded_network_table_lookup {α ρ : Type} (ef : CsvFile (Edge α)) (vf : CsvFile (Vertex α))
+    (nE nV : Option Nat) (g : Graph α) (hg : graphFromFiles ef vf nE nV = .ok g)
+    (rows : List (Row ρ)) (t : List ρ) (ht : readTable true rows = .ok t) (hl : rows.length = g.nEdges)
+    (k : Nat) (hk : k < g.nEdges) :
+    ∃ ed x, g.getEdge k = .ok ed ∧ ed.edgeId = k ∧ ef.rows[k]? = some (.ok ed) ∧
+      tableGet t ed.edgeId = .ok x ∧ rows[k]? = some (.ok x) := by
+  obtain ⟨es, vs, n, _, _, he, _, _, hr, _, _, _, rfl⟩ := from_files_ok_inv _ _ _ _ _ hg
+  have hk' : k < es.length := hk
+  obtain ⟨hlen, hrow⟩ := read_table_entry_is_file_line rows t ht
+  have hkt : k < t.length := by rw [hlen, hl]; exact hk
+  have hkr : k < rows.length := by rw [hl]; exact hk
+  have h1 := get_edge_row es vs n hr k hk'
+  refine ⟨es[k], t[k], h1.1, h1.2, by rw [he]; simp [List.getElem?_eq_getElem hk'], ?_, ?_⟩
+  · rw [h1.2]; simp [tableGet, tableRow, List.getElem?_eq_getElem hkt]
+  · have := hrow k
+    simp only [tableRow, List.getElem?_eq_getElem hkt, List.getElem?_eq_getElem hkr] at this
+    cases hx : rows[k] with
+    | bad => rw [hx] at this; simp [Row.payload?] at this
+    | ok y =>
+      rw [hx] at this
+      simp only [Row.payload?, Option.bind_some, Option.some.injEq] at this
+      rw [List.getElem?_eq_getElem hkr, hx, this]
+
+/-- the code never compares a table's length with the number of edges: with a table shorter than the
+network the load and the read both succeed, and the first edge without a line is a listed, retrievable
+edge whose lookup fails when a query reaches it (an explicit error at query time, never another edge's
+value; a longer table's extra lines are never looked at) -/
+theorem table_shorter_than_network_lookup_fails {α β : Type} (ef : CsvFile (Edge α)) (vf : CsvFile (Vertex α))
+    (nE nV : Option Nat) (g : Graph α) (hg : graphFromFiles ef vf nE nV = .ok g) (t : List β)
+    (hl : t.length < g.nEdges) :
+    ∃ ed, g.getEdge t.length = .ok ed ∧ ed.edgeId = t.length ∧ tableGet t ed.edgeId = .error (.missing t.length) := by
+  obtain ⟨es, vs, n, _, _, _, _, _, hr, _, _, _, rfl⟩ := from_files_ok_inv _ _ _ _ _ hg
+  have h1 := get_edge_row es vs n hr t.length hl
+  exact ⟨_, h1.1, h1.2, by rw [h1.2]; exact (table_get_ok_iff t t.length).2 (Nat.le_refl _)⟩
+
+/-- without a grade table every grade is the zero grade; without a road-class restriction in the query
+every edge is valid and the class table is not looked at; with one, the answer is membership of the
+edge's class (its line of the class file) in the restriction -/
+theorem grade_and_road_class_lookups {β : Type} (zero : β) (t : List β) (lookup allowed : List Nat) (e : Nat) :
+    getGrade none zero e = .ok zero ∧ getGrade (some t) zero e = tableGet t e ∧
+    roadClassValid lookup none e = .ok true ∧
+    (∀ c, tableGet lookup e = .ok c → roadClassValid lookup (some allowed) e = .ok (allowed.contains c)) ∧
+    (lookup.length ≤ e → roadClassValid lookup (some allowed) e = .error (.missing e)) := by
+  refine ⟨rfl, rfl, rfl, fun c hc => by simp [roadClassValid, hc], fun h => ?_⟩
+  simp [roadClassValid, (table_get_ok_iff lookup e).2 h]
+
 /-- `Edge::default()` is the edge 0 from vertex 0 to vertex 1 of unit length -/
 theorem edge_default_fields {α : Type} [Lit α] :
     (Edge.default : Edge α).edgeId = 0 ∧ (Edge.default : Edge α).src = 0 ∧ (Edge.default : Edge α).dst = 1 ∧
     (Edge.default : Edge α).distance = one := ⟨rfl, rfl, rfl, rfl⟩
+
+/-! ### counts explicit or scanned, right or wrong: the accessors do not depend on them -/
+
+/-- Q5 at full strength: whenever the same two files load under two ways of giving the counts (explicit,
+scanned, too large, or a scan inflated by blank lines), the two graphs have the same edges and vertices
+and the same out- and in-edges at every vertex.  (The `Graph` VALUES may differ in the length of their
+adjacency tables — `adj_length` — which no accessor exposes; `from_files_ok` gives equal values when the
+count in force is the number of vertex rows.) -/
+theorem counts_do_not_change_accessors {α : Type} (ef : CsvFile (Edge α)) (vf : CsvFile (Vertex α))
+    (nE1 nV1 nE2 nV2 : Option Nat) (g1 g2 : Graph α)
+    (h1 : graphFromFiles ef vf nE1 nV1 = .ok g1) (h2 : graphFromFiles ef vf nE2 nV2 = .ok g2) :
+    g1.edges = g2.edges ∧ g1.vertices = g2.vertices ∧
+    ∀ v, g1.outEdges v = g2.outEdges v ∧ g1.inEdges v = g2.inEdges v := by
+  obtain ⟨es, vs, n, _, _, he, hv, _, hr, _, hb, _, rfl⟩ := from_files_ok_inv _ _ _ _ _ h1
+  obtain ⟨es', vs', n', _, _, he', hv', _, _, _, hb', _, rfl⟩ := from_files_ok_inv _ _ _ _ _ h2
+  have e1 : es' = es := (List.map_injective_iff.2 (fun a b h => by injection h)) (he'.symm.trans he)
+  have e2 : vs' = vs := (List.map_injective_iff.2 (fun a b h => by injection h)) (hv'.symm.trans hv)
+  subst e1; subst e2
+  refine ⟨rfl, rfl, fun v => ⟨?_, ?_⟩⟩
+  · rw [out_edges_eq es' vs' n hr hb, out_edges_eq es' vs' n' hr hb']
+  · rw [in_edges_eq es' vs' n hr hb, in_edges_eq es' vs' n' hr hb']
+
+/-- a record that does not decode, in either file, never loads — whatever the counts (the error KIND
+`CsvError` is `undecodable_edge_row_error` / `undecodable_vertex_row_error`, stated for declared counts) -/
+theorem undecodable_row_never_loads {α : Type} (ef : CsvFile (Edge α)) (vf : CsvFile (Vertex α))
+    (nE nV : Option Nat) (h : Row.bad ∈ ef.rows ∨ Row.bad ∈ vf.rows) (g : Graph α) :
+    graphFromFiles ef vf nE nV ≠ .ok g := by
+  intro hg
+  obtain ⟨es, vs, _, _, _, he, hv, _⟩ := from_files_ok_inv _ _ _ _ _ hg
+  rcases h with h | h
+  · rw [he] at h; simp at h
+  · rw [hv] at h; simp at h
+
+/-! ### allocation of the adjacency tables -/
+
+/-- a declared or scanned vertex count beyond the allocation limit is a `DatasetError` (after the counts
+were obtained, before the edge file is read — also when that file is missing); at or below the limit the
+allocation step changes nothing (before the repair in /repo the first case was a panic) -/
+theorem alloc_limit {α : Type} (cap : Nat) (ef : CsvFile (Edge α)) (vf : CsvFile (Vertex α))
+    (nE nV : Option Nat) (k n : Nat) (hE : countOrScan nE ef = .ok k) (hV : countOrScan nV vf = .ok n) :
+    (cap < n → graphFromFilesAlloc cap ef vf nE nV = .error .dataset) ∧
+    (n ≤ cap → graphFromFilesAlloc cap ef vf nE nV = graphFromFiles ef vf nE nV) := by
+  constructor <;> intro h <;> simp only [graphFromFilesAlloc, hE, hV]
+  · simp [h]
+  · simp [Nat.not_lt.2 h]
+
+/-- hence every network that loads through the allocating entry point is a network that
+`graphFromFiles` loads: all theorems of this file apply to it -/
+theorem alloc_ok_is_load {α : Type} (cap : Nat) (ef : CsvFile (Edge α)) (vf : CsvFile (Vertex α))
+    (nE nV : Option Nat) (g : Graph α) (h : graphFromFilesAlloc cap ef vf nE nV = .ok g) :
+    graphFromFiles ef vf nE nV = .ok g := by
+  unfold graphFromFilesAlloc at h
+  cases h1 : countOrScan nE ef with
+  | error x => simp [h1] at h
+  | ok k =>
+    cases h2 : countOrScan nV vf with
+    | error x => simp [h1, h2] at h
+    | ok n =>
+      simp only [h1, h2] at h
+      split at h
+      · simp at h
+      · exact h
+
+/-! ### the vertex decoder composed with the loader -/
+
+/-- Q4 composed with the loader: a vertex file given as records of (column name, cell) pairs in which
+record `k` has exactly one `vertex_id` column parsing to `k`, one `x` and one `y` column, each parseable —
+in ANY column order, possibly a different one in every record, with any other columns — decodes to the
+listed vertices, so together with an edge file in the documented format it loads to the listed network -/
+theorem vertex_file_any_column_order {α : Type} (recs : List (List (String × Cell α))) (vs : List (Vertex α))
+    (hlen : recs.length = vs.length)
+    (h : ∀ k (h1 : k < recs.length) (h2 : k < vs.length),
+      (∃ a c b, recs[k] = a ++ ("vertex_id", c) :: b ∧ c.asUsize = some vs[k].vertexId ∧
+        (∀ e ∈ a, e.1 ≠ "vertex_id") ∧ ∀ e ∈ b, e.1 ≠ "vertex_id") ∧
+      (∃ a c b, recs[k] = a ++ ("x", c) :: b ∧ c.asF32 = some vs[k].x ∧ (∀ e ∈ a, e.1 ≠ "x") ∧ ∀ e ∈ b, e.1 ≠ "x") ∧
+      (∃ a c b, recs[k] = a ++ ("y", c) :: b ∧ c.asF32 = some vs[k].y ∧ (∀ e ∈ a, e.1 ≠ "y") ∧ ∀ e ∈ b, e.1 ≠ "y")) :
+    recs.map decodeVertexRow = vs.map Row.ok := by
+  apply List.ext_getElem
+  · simp [hlen]
+  · intro k h1 h2
+    have k1 : k < recs.length := by simpa using h1
+    have k2 : k < vs.length := by simpa using h2
+    obtain ⟨hi, hx, hy⟩ := h k k1 k2
+    simp only [List.getElem_map, decodeVertexRow,
+      decode_vertex_any_column_order recs[k] vs[k].vertexId vs[k].x vs[k].y hi hx hy]
+
+theorem loaded_vertices_any_column_order {α : Type} (es : List (Edge α)) (recs : List (List (String × Cell α)))
+    (vs : List (Vertex α)) (el vl : Nat) (nE nV : Option Nat) (hE : nE ≠ none ∨ 1 ≤ el)
+    (hV : nV = some vs.length ∨ (nV = none ∧ vl = vs.length + 1))
+    (hr : RowIds es) (hb : EndpointsBelow es vs.length) (hv : VertexRowIds vs)
+    (hlen : recs.length = vs.length)
+    (h : ∀ k (h1 : k < recs.length) (h2 : k < vs.length),
+      (∃ a c b, recs[k] = a ++ ("vertex_id", c) :: b ∧ c.asUsize = some vs[k].vertexId ∧
+        (∀ e ∈ a, e.1 ≠ "vertex_id") ∧ ∀ e ∈ b, e.1 ≠ "vertex_id") ∧
+      (∃ a c b, recs[k] = a ++ ("x", c) :: b ∧ c.asF32 = some vs[k].x ∧ (∀ e ∈ a, e.1 ≠ "x") ∧ ∀ e ∈ b, e.1 ≠ "x") ∧
+      (∃ a c b, recs[k] = a ++ ("y", c) :: b ∧ c.asF32 = some vs[k].y ∧ (∀ e ∈ a, e.1 ≠ "y") ∧ ∀ e ∈ b, e.1 ≠ "y")) :
+    ∃ g, graphFromFiles ⟨true, el, true, es.map Row.ok⟩ ⟨true, vl, true, recs.map decodeVertexRow⟩ nE nV = .ok g ∧
+      Describes g es vs := by
+  rw [vertex_file_any_column_order recs vs hlen h]
+  exact listed_network_loads es vs el vl nE nV hE hV hr hb hv
+
+/-- with a DUPLICATED column name the decoder is order dependent (the last `x` before the triple is
+complete wins): the hypothesis "exactly one column of each name" of `decode_vertex_any_column_order`
+cannot be dropped.  A second column named like a required one is accepted silently. -/
+theorem decode_vertex_duplicate_column_order_dependent_counterexample :
+    let c (n : Nat) : Cell Nat := ⟨some n, some n⟩
+    decodeVertex (some [some ("x", c 1), some ("vertex_id", c 0), some ("x", c 2), some ("y", c 5)]) false = .ok ⟨0, 2, 5⟩ ∧
+    decodeVertex (some [some ("vertex_id", c 0), some ("x", c 1), some ("y", c 5), some ("x", c 2)]) false = .ok ⟨0, 1, 5⟩ := by
+  decide
+
+/-! ### the adjacency entry is C11's specification -/
+
+/-- the abstract adjacency entry of this model and the specification C11 proves the Rust container
+against are the same function (so C11's refinement theorems speak about `adjInsert`; the composition
+"`Graph` over the real container" is not formalised beyond this equality) -/
+theorem adjacency_entry_is_container_spec (k v : Nat) (m : AdjMap) : adjInsert k v m = Spec.insert m k v := by
+  induction m with
+  | nil => rfl
+  | cons p r ih =>
+    obtain ⟨k', v'⟩ := p
+    by_cases h : k' = k
+    · simp [adjInsert, Spec.insert, h]
+    · simp [adjInsert, Spec.insert, h, ih]
 
 /-! ### non-vacuity -/
 
@@ -1188,6 +1442,52 @@ example : graphBuilderBuild (α := Nat) (.arr []) true true ⟨true, 8, true, []
     .error (.expectedField "edge_list_input_file" "graph") := rfl
 example : graphBuilderBuild (α := Nat) (exParams []) true true ⟨false, 0, false, []⟩ ⟨true, 4, true, []⟩ =
     .error (.graph .io) := rfl
+
+-- (5) per-edge tables: the star network of 7 edges with a speed file of 7 lines — every hypothesis of
+-- `loaded_network_table_lookup` instantiated — and with one of 5 lines
+def exSpeedFile : List (Row Nat) := [.ok 30, .ok 50, .ok 50, .ok 90, .ok 110, .ok 30, .ok 70]
+example : ∃ ed x, (buildGraph (star 7) (wVertices 3) 3).getEdge 4 = .ok ed ∧ ed.edgeId = 4 ∧
+    ((star 7).map Row.ok)[4]? = some (.ok ed) ∧ tableGet [30, 50, 50, 90, 110, 30, 70] ed.edgeId = .ok x ∧
+    exSpeedFile[4]? = some (.ok x) :=
+  loaded_network_table_lookup ⟨true, 8, true, (star 7).map Row.ok⟩ ⟨true, 4, true, (wVertices 3).map Row.ok⟩ none none _
+    (from_files_ok (star 7) (wVertices 3) 8 4 none none (Or.inr (by decide)) (Or.inr ⟨rfl, rfl⟩)
+      (star_rowIds 7) (star_endpoints 7) (by intro i h; simp [wVertices]))
+    exSpeedFile [30, 50, 50, 90, 110, 30, 70] rfl rfl 4 (by decide)
+example : ∃ ed, (buildGraph (star 7) (wVertices 3) 3).getEdge 5 = .ok ed ∧ ed.edgeId = 5 ∧
+    tableGet [30, 50, 50, 90, 110] ed.edgeId = .error (.missing 5) :=
+  table_shorter_than_network_lookup_fails ⟨true, 8, true, (star 7).map Row.ok⟩ ⟨true, 4, true, (wVertices 3).map Row.ok⟩ none none _
+    (from_files_ok (star 7) (wVertices 3) 8 4 none none (Or.inr (by decide)) (Or.inr ⟨rfl, rfl⟩)
+      (star_rowIds 7) (star_endpoints 7) (by intro i h; simp [wVertices]))
+    [30, 50, 50, 90, 110] (by decide)
+-- (6) the same files under a scanned vertex count (3) and a declared one that is too large (5): both
+-- load, the tables differ in length, the accessors do not
+example : ∃ g1 g2, graphFromFiles ⟨true, 8, true, (star 7).map Row.ok⟩ ⟨true, 4, true, (wVertices 3).map Row.ok⟩ none none = .ok g1 ∧
+    graphFromFiles ⟨true, 8, true, (star 7).map Row.ok⟩ ⟨true, 4, true, (wVertices 3).map Row.ok⟩ (some 99) (some 5) = .ok g2 ∧
+    g1.adj.length = 3 ∧ g2.adj.length = 5 ∧ ∀ v, g1.outEdges v = g2.outEdges v ∧ g1.inEdges v = g2.inEdges v :=
+  ⟨buildGraph (star 7) (wVertices 3) 3, buildGraph (star 7) (wVertices 3) 5, rfl, rfl, by decide, by decide,
+    (counts_do_not_change_accessors ⟨true, 8, true, (star 7).map Row.ok⟩ ⟨true, 4, true, (wVertices 3).map Row.ok⟩
+      none none (some 99) (some 5) _ _ rfl rfl).2.2⟩
+-- (7) a declared vertex count beyond the allocation limit, and one below it
+example : graphFromFilesAlloc (α := Nat) 128102389400760775 ⟨true, 8, true, (star 7).map Row.ok⟩ ⟨true, 4, true, (wVertices 3).map Row.ok⟩
+    (some 7) (some 18446744073709551615) = .error .dataset :=
+  (alloc_limit _ _ _ _ _ 7 18446744073709551615 rfl rfl).1 (by decide)
+-- (8) a vertex file whose two records have different column orders and a bystander column
+def exRecs : List (List (String × Cell Nat)) :=
+  [[("y", ⟨some 0, some 0⟩), ("vertex_id", ⟨some 0, some 0⟩), ("x", ⟨some 0, some 0⟩)],
+   [("vertex_id", ⟨some 1, some 1⟩), ("name", ⟨none, none⟩), ("x", ⟨some 10, some 10⟩), ("y", ⟨some 20, some 20⟩)]]
+example : exRecs.map decodeVertexRow = (wVertices 2).map Row.ok :=
+  vertex_file_any_column_order exRecs (wVertices 2) rfl (by
+    intro k h1 h2
+    match k, h1, h2 with
+    | 0, _, _ =>
+      exact ⟨⟨[("y", ⟨some 0, some 0⟩)], ⟨some 0, some 0⟩, [("x", ⟨some 0, some 0⟩)], rfl, rfl, by decide, by decide⟩,
+        ⟨[("y", ⟨some 0, some 0⟩), ("vertex_id", ⟨some 0, some 0⟩)], ⟨some 0, some 0⟩, [], rfl, rfl, by decide, by decide⟩,
+        ⟨[], ⟨some 0, some 0⟩, [("vertex_id", ⟨some 0, some 0⟩), ("x", ⟨some 0, some 0⟩)], rfl, rfl, by decide, by decide⟩⟩
+    | 1, _, _ =>
+      exact ⟨⟨[], ⟨some 1, some 1⟩, [("name", ⟨none, none⟩), ("x", ⟨some 10, some 10⟩), ("y", ⟨some 20, some 20⟩)], rfl, rfl, by decide, by decide⟩,
+        ⟨[("vertex_id", ⟨some 1, some 1⟩), ("name", ⟨none, none⟩)], ⟨some 10, some 10⟩, [("y", ⟨some 20, some 20⟩)], rfl, rfl, by decide, by decide⟩,
+        ⟨[("vertex_id", ⟨some 1, some 1⟩), ("name", ⟨none, none⟩), ("x", ⟨some 10, some 10⟩)], ⟨some 20, some 20⟩, [], rfl, rfl, by decide, by decide⟩⟩
+    | k + 2, h1, _ => exact absurd h1 (by simp [exRecs]))
 
 end C15
 end Compass
